@@ -123,6 +123,8 @@ def m_stmt(s, ind):
         return "for (%s in %s) %s" % (s[1], m_expr(s[2]), m_block(s[3], ind))
     if k == "for2":
         return "for (%s, %s in %s) %s" % (s[1], s[2], m_expr(s[3]), m_block(s[4], ind))
+    if k == "formulti":
+        return "for ((%s), %s in %s) %s" % (", ".join(s[1]), s[2], m_expr(s[3]), m_block(s[4], ind))
     if k == "forc":
         return "for (%s; %s; %s) %s" % (", ".join(m_simple(x) for x in s[1]), m_expr(s[2]) if s[2] is not None else "",
                                         ", ".join(m_simple(x) for x in s[3]), m_block(s[4], ind))
@@ -253,6 +255,8 @@ def c_stmt(s):
         return "(SFor1 %s %s %s)" % (cb(s[1]), c_expr(s[2]), c_body(s[3]))
     if k == "for2":
         return "(SFor2 %s %s %s %s)" % (cb(s[1]), cb(s[2]), c_expr(s[3]), c_body(s[4]))
+    if k == "formulti":
+        return "(SForMulti %s %s %s %s)" % (c_list(cb(x) for x in s[1]), cb(s[2]), c_expr(s[3]), c_body(s[4]))
     if k == "forc":
         return "(SForC %s %s %s %s)" % (c_body(s[1]), "None" if s[2] is None else "(Some %s)" % c_expr(s[2]), c_body(s[3]), c_body(s[4]))
     if k == "cond":
@@ -306,7 +310,7 @@ def ss(s):
     return n
 
 
-STMT_KINDS = {"callsub", "assign", "define", "assignsrec", "unset", "if", "while", "do", "for1", "for2", "forc", "cond", "break", "continue",
+STMT_KINDS = {"formulti", "callsub", "assign", "define", "assignsrec", "unset", "if", "while", "do", "for1", "for2", "forc", "cond", "break", "continue",
               "return", "print", "emit1", "emitmap", "emitnamed", "filter", "bare"}
 
 # ------------------------------------------------------------------ generator
@@ -505,6 +509,20 @@ class Gen:
                 return ("srec",)
         return ("maplit", [(("str", "a"), ("int", 1))])
 
+    def e_nested(self, cx, levels):
+        """a map literal nested [levels] deep (ragged now and then: a scalar or an empty map where a sub-map is expected)"""
+        r = self.rng
+        kvs = []
+        for key in r.sample(["a", "b", "k", "pan", "eks"], r.randint(1, 3)):
+            if levels <= 1:
+                val = ("int", r.randint(-2, 9)) if r.random() < 0.8 else ("str", r.choice(WORDS))
+            elif r.random() < 0.12:
+                val = r.choice([("int", 7), ("maplit", [])])
+            else:
+                val = self.e_nested(cx, levels - 1)
+            kvs.append((("str", key), val))
+        return ("maplit", kvs)
+
     def e_any(self, cx, d):
         r = self.rng
         c = r.randrange(10)
@@ -607,9 +625,11 @@ class Gen:
 
     def stmt(self, cx, depth):
         r = self.rng
+        if getattr(self, "bv", False) and not cx["in_func"] and r.random() < 0.2:
+            return self.byvalue_stmt(cx)
         kinds = ["assign"] * 6 + ["define"] * 3 + ["print"] * 2 + ["idxassign"] * 2 + ["compound"] * 2 + ["unset", "emit", "bare"]
         if depth > 0:
-            kinds += ["if"] * 3 + ["while", "for2", "for2", "for1", "forc", "cond", "do"]
+            kinds += ["if"] * 3 + ["while", "for2", "for2", "for1", "forc", "cond", "do", "formulti"]
         if cx["in_loop"]:
             kinds += ["break", "continue"]
         if cx["ret"] is not None:
@@ -707,11 +727,7 @@ class Gen:
         if k == "emit":
             c = r.random()
             if c < 0.25:
-                # pending finding emit1-emits-map-by-reference: emit1 of a stored map (local/oosvar, or a sub-map of one) is
-                # changed by later in-place updates of that map; only freshly built maps are emitted here
                 e = self.e_map(cx, 1)
-                if e[0] in ("local", "oos", "index"):
-                    e = ("maplit", [(("str", "v"), e)]) if r.random() < 0.5 else ("srec",) if cx["fields"] else ("oosall",)
                 return ("emit1", e)
             if c < 0.5:
                 e = r.choice([("oosall",), self.e_map(cx, 1)])
@@ -767,6 +783,41 @@ class Gen:
                 return ("for1", kn, src, extra + self.block(cxl, depth - 1))
             cxl["scopes"] = cx["scopes"] + [{kn: ("str", None), vn: (r.choice(["int", "str"]), None)}]
             return ("for2", kn, vn, src, extra + self.block(cxl, depth - 1))
+        if k == "formulti":
+            n = r.choice([2, 3, 3, 4])
+            keys = ["k%d" % i for i in range(1, n + 1)]
+            levels = n + r.choice([0, 0, 0, 1, -1])
+            if r.random() < 0.75:
+                src = self.e_nested(cx, max(1, levels))
+            else:
+                src = self.e_map(cx, 1)
+            pre = []
+            if r.random() < 0.3:
+                # through an oosvar, as in accumulators keyed by several fields
+                name = r.choice(OOS)
+                self.oos_kind[name] = "map"
+                pre = [("assign", ("oos", name), [], src, False)]
+                src = ("oos", name)
+            cxl = dict(cx, in_loop=True)
+            cxl["scopes"] = cx["scopes"] + [dict([(kk, ("str", None)) for kk in keys] + [("e", ("int", None))])]
+            # an exit statement guarded by a condition on the leaf or on a key of some level, plus an ordinary body
+            lvl = r.choice(keys)
+            guard = r.choice([("bin", r.choice(["==", ">", "<"]), ("local", "e"), ("int", r.randint(0, 6))),
+                              ("bin", "==", ("local", lvl), ("str", r.choice(["a", "b", "k", "pan", "eks"])))])
+            exits = ["break", "break", "continue"] + (["return"] if cx["ret"] is not None else [])
+            ex = r.choice(exits)
+            if ex == "return":
+                exs = ("return", None) if cx["ret"] == "void" else ("return", self.e_kind(cx, cx["ret"], 1))
+            else:
+                exs = (ex,)
+            trace = ("print", ("bin", ".", ("bin", ".", ("local", keys[0]), ("local", keys[-1])), ("local", "e")))
+            body = [("if", [(guard, [exs])], None), trace] + self.block(cxl, depth - 1, n=r.randint(0, 2))
+            if r.random() < 0.3:
+                body = [trace, ("if", [(guard, [exs])], None)] + body[2:]
+            loop = ("formulti", keys, "e", src, body)
+            if pre:
+                return ("cond", ("bool", True), pre + [loop])
+            return loop
         if k == "forc":
             self.counter += 1
             cn = "j%d" % self.counter
@@ -850,13 +901,52 @@ class Gen:
         sig = {"name": name, "params": params, "ret": "any", "kind": "sub", "sub": True}
         callable_ = [f["name"] for f in self.funcs]
         self.funcs.append(sig)
-        # no return statement inside subroutines (pending finding subroutine-return-exits-caller-block)
-        cx = self.new_cx(fields=r.random() < 0.5, in_func=True, ret=None, scopes=[pscope, {}], callable_=callable_)
+        cx = self.new_cx(fields=r.random() < 0.5, in_func=True, ret="void", scopes=[pscope, {}], callable_=callable_)
         sig["body"] = self.block(cx, 2, n=r.randint(1, 4), new_scope=False)
         return sig
 
+    def byvalue_funcs(self):
+        """getter functions that update persistent storage and return it UNCOPIED by the program text (an oosvar map, a sub-map
+        of one), a bumper that changes the same storage and returns a scalar, and consumers taking several such results"""
+        r = self.rng
+        acc = r.choice(["acc", "m"])
+        self.oos_kind[acc] = "map"
+        self.bv_acc = acc
+        inc = lambda n: ("assign", ("oos", acc), [("str", "v")], ("bin", "+", ("index", ("oos", acc), ("str", "v")), ("int", n)), True)
+        put = ("assign", ("oos", acc), [("str", "h"), ("bin", ".", ("str", "n"), ("index", ("oos", acc), ("str", "v")))], ("index", ("oos", acc), ("str", "v")), False)
+        self.funcs.append({"name": "fg", "params": [], "ret": r.choice(["map", "any", "var"]), "kind": "map",
+                           "body": [inc(1)] + ([put] if r.random() < 0.5 else []) + [("return", ("oos", acc))]})
+        self.funcs.append({"name": "fsub", "params": [], "ret": "any", "kind": "map",
+                           "body": [put, ("return", ("index", ("oos", acc), ("str", "h")))]})
+        self.funcs.append({"name": "fh", "params": [], "ret": r.choice(["int", "num", "any"]), "kind": "int",
+                           "body": [inc(100), ("unset", ("oos", acc), [("str", "h")]) if r.random() < 0.3 else ("bare", ("bool", True)),
+                                    ("return", ("index", ("oos", acc), ("str", "v")))]})
+        self.funcs.append({"name": "fk", "params": [("map", "ma"), ("any", "xx")], "ret": "any", "kind": "str",
+                           "body": [("return", ("bin", ".", ("bin", ".", ("index", ("local", "ma"), ("str", "v")), ("str", "/")), ("local", "xx")))]})
+        self.funcs.append({"name": "fpair", "params": [("any", "ma"), ("any", "mb")], "ret": "map", "kind": "map",
+                           "body": [("return", ("maplit", [(("str", "p"), ("local", "ma")), (("str", "q"), ("local", "mb"))]))]})
+
+    def byvalue_stmt(self, cx):
+        r = self.rng
+        g = lambda: ("call", r.choice(["fg", "fg", "fsub"]), [])
+        c = r.randrange(6)
+        if c == 0:
+            return ("print", ("call", "fk", [("call", "fg", []), ("call", "fh", [])]))
+        if c == 1:
+            return ("emit1", ("call", "fpair", [g(), g()]))
+        if c == 2:
+            return ("emit1", ("call", "fpair", [("call", "fpair", [g(), ("call", "fh", [])]), g()]))
+        if c == 3:
+            return ("assign", ("oos", "last"), [], ("call", "fpair", [g(), ("bin", "+", ("call", "fh", []), ("call", "fh", []))]), False)
+        if c == 4:
+            return ("print", ("bin", ".", ("call", "fk", [("call", "fg", []), ("call", "fh", [])]), ("call", "fk", [("call", "fg", []), ("int", 0)])))
+        return ("emit1", ("maplit", [(("str", "a"), ("call", "fpair", [g(), g()])), (("str", "b"), ("call", "fh", []))]))
+
     def program(self):
         r = self.rng
+        self.bv = r.random() < 0.3
+        if self.bv:
+            self.byvalue_funcs()
         for i in range(r.choice([0, 1, 1, 2, 3])):
             self.func(i)
         for i in range(r.choice([0, 0, 1, 1, 2])):
@@ -915,7 +1005,7 @@ def walk_stmts(ss, f):
             walk_stmts(s[1], f)
         elif k == "for1":
             walk_stmts(s[3], f)
-        elif k == "for2":
+        elif k in ("for2", "formulti"):
             walk_stmts(s[4], f)
         elif k == "forc":
             walk_stmts(s[1], f)
